@@ -106,7 +106,7 @@ def gen_c11(tier, rng):
     # read back and nothing else of the header may change (the C13 cases of those classes, judged by the same layout predicate)
     from . import gen_bld
     for c in gen_bld.gen_c13(tier, rng):
-        if c.meta.get("kind") in ("can", "canfd", "lin", "eth", "analog") and "chain" not in c.tags:
+        if c.meta.get("kind") in ("can", "canfd", "lin", "eth", "analog", "if", "cm") and "chain" not in c.tags:
             c.tags = tuple(c.tags) + ("length-fields",)
             cases.append(c)
     return cases
